@@ -2,7 +2,8 @@
 //! Requests:
 //!   `P <expr>`                         -> `ok <sexpr>` | `err`
 //!   `E <expr> <name>=<value> ...`      -> `v <i64> | <vars>` | `e <kind> | <vars>`
-//!       (variables of the fixed universe are unset, the given ones set as scalars, the expression is
+//!       (variables of the fixed universe are unset, the given ones set as scalars — `@name=v0,v1,…` as an
+//!        indexed array with elements 0.. —, the expression is
 //!        parsed with brush_parser::arithmetic::parse and evaluated with Evaluatable::eval on a real Shell;
 //!        <vars> = the universe's variables afterwards, `name=value` sorted by name, `-` if none)
 //! All fields are %-escaped (vh::esc).
@@ -87,6 +88,26 @@ async fn main() {
                     let _ = shell.env_mut().unset(n);
                 }
                 for t in &toks[2..] {
+                    if let Some(rest) = t.strip_prefix('@') {
+                        // `@name=v0,v1,…`: an indexed array (elements 0..), as `name=(v0 v1 …)` creates it
+                        if let Some((n, vs)) = rest.split_once('=') {
+                            let items: Vec<(Option<String>, String)> = if vs.is_empty() {
+                                vec![]
+                            } else {
+                                vs.split(',').map(|v| (None, unesc(v))).collect()
+                            };
+                            let _ = shell.env_mut().update_or_add(
+                                n,
+                                brush_core::variables::ShellValueLiteral::Array(
+                                    brush_core::variables::ArrayLiteral(items),
+                                ),
+                                |_| Ok(()),
+                                brush_core::env::EnvironmentLookup::Anywhere,
+                                brush_core::env::EnvironmentScope::Global,
+                            );
+                        }
+                        continue;
+                    }
                     if let Some((n, v)) = t.split_once('=') {
                         let _ = shell.env_mut().update_or_add(
                             n,
